@@ -18,7 +18,9 @@ BINOPS = ["or", "and", "<", ">", "<=", ">=", "~=", "==", "|", "~", "&", "<<", ">
           "*", "/", "//", "%", "^"]
 UNOPS = ["-", "not", "#", "~"]
 NAMES = ["a", "b", "c", "x", "y", "_", "_ENV", "foo", "bar1", "self", "t", "f", "g", "i", "k", "v",
-         "n", "andy", "ifx", "e", "E", "p", "x0", "A", "nil_", "is", "as", "require", "d", "ff"]
+         "n", "andy", "ifx", "e", "E", "p", "x0", "A", "nil_", "is", "as", "require", "d", "ff",
+         # identifiers spelled like the formatter's and lexer's internal sentinel values (Separators / TokenType values, Python literals)
+         "stmt", "newline", "arg", "indent", "block", "name", "number", "string", "eof", "None"]
 
 
 @dataclass
